@@ -181,6 +181,8 @@ fn run_case(c: &Case) -> CaseOut {
                 };
                 if strip(&real_out) != strip(c.input.as_bytes()) {
                     oracle_failures.push("c01: non-blank characters of the output differ from the input's".to_string());
+                } else if let Ok(o) = std::str::from_utf8(&real_out) {
+                    oracle_failures.extend(oracles::c01_case_positions(&c.input, o));
                 }
             }
             for o in &c.oracles {
@@ -694,7 +696,7 @@ fn cmd_emit(a: &Args) {
                     let b = render_relayout(&p, shared, &mut r, with_comments);
                     cases.push(Case { stream: stream.clone(), family: fam.clone(), input: a, cfg, cursors: vec![], oracles: oracle_list.clone(), well_formed: true, w2: 80, input2: Some(b), marks: vec![], texts: vec![] });
                 } else {
-                    let o = LayoutOpts { comments: r.chance(1, 3), directives: false, blank_lines: r.chance(1, 2), crlf: false, tabs: r.chance(1, 3), tight: r.chance(1, 3), line_comments_only: true };
+                    let o = LayoutOpts { comments: r.chance(1, 3), directives: r.chance(1, 3), blank_lines: r.chance(1, 2), crlf: false, tabs: r.chance(1, 3), tight: r.chance(1, 3), line_comments_only: true };
                     let input = if r.chance(1, 3) { render_plain(&p) } else { render_layout(&p, &mut r, o) };
                     let marks: Vec<Mark> = p.toks.iter().map(|t| t.mark).collect();
                     let texts: Vec<String> = p.toks.iter().map(|t| t.text.clone()).collect();
